@@ -49,7 +49,7 @@ var c13Perms = func() [][]int {
 	return out
 }()
 
-func (c13) Enumerated(string) int { return len(c13Perms) * 4 }
+func (c13) Enumerated(string) int            { return len(c13Perms) * 4 }
 func (c13) Components() ([]string, []string) { return serverComponents() }
 
 func serverComponents() ([]string, []string) {
@@ -170,8 +170,8 @@ func (c13) Run(ctx *RunCtx) {
 		ndocs = 2
 	}
 	rev := []int{0, 0}
-	maxVer := []int{1, 1}      // highest marker version generated per document
-	lspVer := []int{1, 1}      // version numbers of the notifications
+	maxVer := []int{1, 1}     // highest marker version generated per document
+	lspVer := []int{1, 1}     // version numbers of the notifications
 	hist := [][]int{{1}, {1}} // marker versions of the texts the document went through
 	final := []string{"", ""}
 	for i := 0; i < ndocs; i++ {
